@@ -24,9 +24,12 @@ RULE = (
     "shelve is the seed), modern initial transfers added to a real TransferManager, and a history of 0..8 ops from "
     "{write (store_data), stop (the session is a real, never connected SoulSeekClient on the same cache directory and "
     "ends by the real SoulSeekClient.stop(); in a third of these its shares cache write raises OSError -- whatever "
-    "stop() raises, the transfer cache must then hold the manager's transfers; followed by a restart), restart "
+    "stop() raises, the transfer cache must then hold the manager's transfers; followed by a restart with a new "
+    "object or, in a third, by load_data() on the SAME client object, which must still list each transfer exactly "
+    "once), restart "
     "(fresh manager + load_data on the same directory WITHOUT a write: the process can end at any point, the last "
-    "written snapshot counts), outage (the process is killed and the next one starts while the cache cannot be read: "
+    "written snapshot counts; in a third a transfer equal to a persisted one is requested on the new object through "
+    "download()/add() BEFORE the load and must be listed once afterwards), outage (the process is killed and the next one starts while the cache cannot be read: "
     "data directory renamed away / replaced by a regular file / shelve.open raising EACCES; it optionally adds a "
     "transfer, the cache becomes reachable again and the session writes it, then a restart), set (put a live transfer into another state / field combination, with the pending "
     "task and speed log a running client would hold), remove (TransferManager.remove), add}; a final restart always "
@@ -75,6 +78,9 @@ ASSUMPTIONS = [
     "time.monotonic has an undefined reference point per process (Python documentation), so a later session may see "
     "any origin; time.monotonic of aioslsk.transfer.model and aioslsk.transfer.manager is the virtual loop clock plus "
     "the session's origin",
+    "same-object reload: only 'each exactly once, manager listening once, stable fields equal' is demanded; the state "
+    "may be the kept in-memory one or the repaired one (the property speaks of a new client). A transfer requested "
+    "before the load is the one that stays listed (TransferManager.add keeps the existing equal transfer)",
     "start-up faults: the cache path is missing, is a regular file, or shelve.open raises PermissionError; an empty "
     "but existing data directory is indistinguishable from a first start and is not generated",
     "shutdown faults: only the store of ANOTHER service (shares cache write) fails; a failing transfer cache write is "
@@ -170,12 +176,16 @@ def _gen_case(seed):
     ops = []
     for _ in range(r.randint(0, MAX_OPS - 1)):
         kind = r.choice(['write', 'write', 'write', 'restart', 'stop', 'set', 'set', 'set', 'remove', 'add', 'outage'])
-        if kind in ('write', 'restart'):
+        if kind == 'write':
             ops.append([kind])
+        elif kind == 'restart':
+            # optionally a transfer equal to a persisted one is requested on the new object BEFORE it loads the cache
+            ops.append(['restart', r.choice([None, None, r.randint(0, 7)])])
         elif kind == 'outage':
             ops.append(['outage', r.randint(0, 2), _gen_transfer(r, pool, False) if r.random() < 0.5 else None])
         elif kind == 'stop':
-            ops.append(['stop', r.choice([0, 0, 1])])
+            # [fault of the shares cache, 1 = the SAME client object loads the cache again instead of a new one]
+            ops.append(['stop', r.choice([0, 0, 1]), r.choice([0, 0, 1])])
         elif kind == 'remove':
             ops.append(['remove', r.randint(0, 7)])
         elif kind == 'add':
@@ -191,7 +201,7 @@ def _gen_case(seed):
             ops.append(['set', r.randint(0, 7), upd])
     if r.random() < 0.75:
         last = r.choice(['write', 'write', 'stop', 'stop'])
-        ops.append([last] if last == 'write' else ['stop', r.choice([0, 1])])
+        ops.append([last] if last == 'write' else ['stop', r.choice([0, 1]), r.choice([0, 0, 1])])
     return {
         'uptimes': [r.choice(UPTIMES) for _ in range(r.randint(1, 4))],
         'avoid_collision': avoid,
@@ -347,6 +357,8 @@ def _observe(t):
 def _same(want, got):
     if want is ANY:
         return True
+    if isinstance(want, tuple) and want and want[0] == 'one-of':
+        return any(_same(w, got) for w in want[1])
     if isinstance(want, bool) or isinstance(got, bool) or want is None or got is None:
         return want is got
     if _is_num(want) and _is_num(got):
@@ -806,16 +818,42 @@ def run_case(case) -> CaseResult:
             for m in want:
                 disk[_ident(m)] = m
 
-        async def restart(final, next_op=0):
+        async def restart(final, next_op=0, pre=None):
             nonlocal live
             stats['restarts'] += 1
             new_boot()
             session = _Session(tmp, None if final else session_end(next_op))
-            await lib('TransferManager.load_data', session.manager.load_data)
             mgr = session.manager
+            # unusual but legal order: a transfer that equals a persisted one is requested on the new object BEFORE
+            # the cache is loaded (download() for downloads, add() for uploads). TransferManager.add documents that
+            # an existing equal transfer is kept: still each transfer exactly once.
+            fresh = {}          # identity -> (model of the fresh transfer, real object)
+            if pre is not None and disk:
+                pm = disk[sorted(disk, key=repr)[pre % len(disk)]]
+                fm = {'u': pm['u'], 'p': pm['p'], 'd': pm['d'], 's': 'QUEUED' if pm['d'] == 1 else 'VIRGIN',
+                      'size': None, 'done': 0, 'lp': None, 'fr': None, 'ar': None, 'rq': False, 'piq': None,
+                      'st': None, 'ct': None, 'qa': 0, 'legacy': 0}
+                if pm['d'] == 1:
+                    obj = (await lib('TransferManager.download', lambda: mgr.download(pm['u'], pm['p'])))[1]
+                else:
+                    from aioslsk.transfer.model import Transfer, TransferDirection
+                    obj = (await lib('TransferManager.add', lambda: mgr.add(
+                        Transfer(pm['u'], pm['p'], TransferDirection.UPLOAD))))[1]
+                fresh[_ident(fm)] = (fm, obj)
+                res.label('restart:transfer-requested-before-load')
+            await lib('TransferManager.load_data', session.manager.load_data)
             where = 'load'
             n_before = len(res.violations)
-            hit = compare_set(where, list(mgr.transfers), list(disk.values()), _expect_loaded, removed)
+
+            def expect_loaded(m):
+                if _ident(m) in fresh and any(t is fresh[_ident(m)][1] for t in session.find(_ident(m))):
+                    e = _expect_raw(fresh[_ident(m)][0])      # the transfer that existed before the load is kept
+                    e['rq'] = False
+                    return e
+                return _expect_loaded(m)
+            hit = compare_set(where, sorted(mgr.transfers, key=lambda t: 0 if any(t is f[1] for f in fresh.values())
+                                            else 1),
+                              list(disk.values()), expect_loaded, removed)
             # nothing may be left in progress, whatever the model says
             for t in mgr.transfers:
                 name = getattr(getattr(t.state, 'VALUE', None), 'name', None)
@@ -844,6 +882,9 @@ def run_case(case) -> CaseResult:
                 ts = session.find(_ident(m))
                 if not ts:
                     continue
+                if _ident(m) in fresh and any(t is fresh[_ident(m)][1] for t in ts):
+                    new_live.append(dict(fresh[_ident(m)][0]))
+                    continue
                 e = _expect_loaded(m)
                 got = _observe(ts[0])
                 nm = dict(m)
@@ -858,6 +899,43 @@ def run_case(case) -> CaseResult:
             if final:
                 await probes(session)
             return session
+
+        async def reload_same_object(session, next_op):
+            """The user stops the client and starts the SAME object again (disconnect / connect without leaving the
+            application): the cache is loaded on top of the list the manager still holds. Each transfer must still
+            be listed exactly once with its fields; whether the kept in-memory object or the repaired record from the
+            cache is listed is left open (the property speaks of a new client), so the state may be either."""
+            mgr = session.manager
+            stats['restarts'] += 1
+            await lib('TransferManager.load_data', mgr.load_data)
+            n_before = len(res.violations)
+
+            def expect_reloaded(m):
+                e = _expect_raw(m)
+                e['s'] = ('one-of', [m['s'], _expect_loaded(m)['s']])
+                e['ar'] = ('one-of', [m['ar'], e['ar']])      # kept in memory as it is / as a cache read yields it
+                e['st'] = e['ct'] = ANY
+                return e
+            hit = compare_set('reload-same-object', list(mgr.transfers), live, expect_reloaded, removed)
+            for t in list(mgr.transfers):
+                ident = (t.username, t.remote_path, getattr(t.direction, 'value', None))
+                n_listen = sum(1 for x in getattr(t, 'state_listeners', []) if x is mgr)
+                if n_listen != 1:
+                    res.violate(f'C17/wiring:reload-same-object:manager-listener-count={n_listen}', str(ident))
+            if hit or len(res.violations) > n_before:
+                raise _Stop()
+            for m in live:
+                got = _observe(session.find(_ident(m))[0])
+                if got['s'] in IN_PROGRESS:
+                    res.label('reload-same-object:in-progress-state-kept')
+                m.update({'s': got['s'], 'rq': bool(got['rq']), 'legacy': 0, 'ar': got['ar'],
+                          'st': got['st'] if got['st'] is None or _is_num(got['st']) else None,
+                          'ct': got['ct'] if got['ct'] is None or _is_num(got['ct']) else None})
+            # the session goes on and ends as the op list says
+            nxt = session_end(next_op)
+            session.shares_cache.fail = bool(nxt)
+            session.shares_cache.writes = 0
+            res.label('restart:same-object')
 
         async def probes(session):
             mgr = session.manager
@@ -1003,10 +1081,15 @@ def run_case(case) -> CaseResult:
                     disk[_ident(m)] = copy.deepcopy(m)
                 if hit or len(res.violations) > n_before:
                     raise _Stop()
-                if kind == 'stop':
+                same = kind == 'stop' and session.client is not None and len(op) >= 3 and bool(op[2]) and \
+                    not isinstance(op[2], (list, dict, str))
+                if same:
+                    await reload_same_object(session, op_index + 1)
+                elif kind == 'stop':
                     session = await restart(final=False, next_op=op_index + 1)
             elif kind == 'restart':
-                session = await restart(final=False, next_op=op_index + 1)
+                pre = op[1] if len(op) >= 2 and isinstance(op[1], int) and not isinstance(op[1], bool) else None
+                session = await restart(final=False, next_op=op_index + 1, pre=pre)
                 res.label('restart-mid-history')
             elif kind == 'outage' and len(op) >= 2 and isinstance(op[1], int) and not isinstance(op[1], bool):
                 extra = _clean_transfer(op[2]) if len(op) >= 3 else None
